@@ -1112,7 +1112,7 @@ def gen_user_actions(g, dv, weights, protected=None, tries=12):
 
 MIX_SUMMARY_OPS = not os.environ.get("GSIM_NO_MIX_SUMMARY_OPS")
 RECORD_OPS = {"add_records", "update_records", "remove_records"}
-ALONE_OPS = {"add_field"}
+ALONE_OPS = {"add_field", "display_formula", "set_sort"}
 SUMMARY_OPS = {"add_summary", "update_summary", "detach_summary", "add_summary_formula"}
 
 
